@@ -65,7 +65,7 @@ for p in props:
 
 man = {
     "version": 1,
-    "setup_cmd": "cd lean && lake build",
+    "setup_cmd": "cd lean && lake build driver " + " ".join(f"CoolerModel.Props.{p}" for p in sorted(CLAIMED)),
     "hooks": {
         "guard": "COOLER_VERIF",
         "enable": "no source hooks are needed: the harness imports /repo/src directly (PYTHONPATH) and observes through public API, module-level functions and raw HDF5; COOLER_VERIF=1 is exported by ./check for completeness",
